@@ -79,7 +79,19 @@ static void hook_free(const volatile void* p) {
 static char g_pending[512];                  // result line for the case in flight (watchdog / abort)
 static std::atomic<int> g_pending_len{0};
 
+// Every process that dies (hang / abort / terminate) leaves one byte in this file; once it holds more than
+// g_died_limit bytes the remaining cases are skipped: the check has failed anyway and 60 s per hanging case add up.
+static char g_budget_path[512];
+static long g_died_limit = 48;
+
 static void die_with(const char* tag, int code) {
+    if (g_budget_path[0]) {
+        const int fd = ::open(g_budget_path, O_WRONLY | O_CREAT | O_APPEND, 0600);
+        if (fd >= 0) {
+            (void)!::write(fd, "x", 1);
+            ::close(fd);
+        }
+    }
     const int n = g_pending_len.load();
     if (n > 0) {
         char buf[700];
@@ -356,6 +368,19 @@ static void run_case(const json& c, json& r) {
     if (comp == "gzip") fstr += ".gz";
     if (comp == "bzip2") fstr += ".bz2";
 
+    // which entity types / whether metadata is read (separate code paths in all four parsers)
+    osmium::osm_entity_bits::type types = osmium::osm_entity_bits::nothing;
+    for (const char t : c.value("types", std::string{"nwrc"})) {
+        switch (t) {
+            case 'n': types |= osmium::osm_entity_bits::node; break;
+            case 'w': types |= osmium::osm_entity_bits::way; break;
+            case 'r': types |= osmium::osm_entity_bits::relation; break;
+            case 'c': types |= osmium::osm_entity_bits::changeset; break;
+            default: break;
+        }
+    }
+    const osmium::io::read_meta meta = c.value("meta", true) ? osmium::io::read_meta::yes : osmium::io::read_meta::no;
+
     std::string path;
     if (via == "file") {
         path = g_tmpdir + "/c03_" + std::to_string(::getpid()) + "." + fstr;
@@ -378,7 +403,7 @@ static void run_case(const json& c, json& r) {
     vh::step_marker(0);
     try {
         osmium::io::File file = (via == "file") ? osmium::io::File{path, fstr} : osmium::io::File{bytes.data(), bytes.size(), fstr};
-        osmium::io::Reader reader{file, osmium::osm_entity_bits::all};
+        osmium::io::Reader reader{file, types, meta};
         const osmium::io::Header header = reader.header();
         for (const auto& kv : header) {
             g_sink += kv.first.size() + kv.second.size();
@@ -493,6 +518,7 @@ int main(int argc, char** argv) {
     g_tmpdir = argc > 1 ? argv[1] : "/tmp";
     if (argc > 2) g_watchdog = std::atoi(argv[2]);
     ::mkdir(g_tmpdir.c_str(), 0700);
+    std::snprintf(g_budget_path, sizeof(g_budget_path), "%s/died", g_tmpdir.c_str());
     // create the process-wide worker pool up front so that its threads are part of the baseline
     osmium::thread::Pool::default_instance();
     std::signal(SIGALRM, on_alarm);
@@ -510,6 +536,15 @@ int main(int argc, char** argv) {
         json c = json::parse(line);
         json r;
         r["id"] = c["id"];
+        {
+            struct stat st;
+            if (::stat(g_budget_path, &st) == 0 && st.st_size > g_died_limit) {
+                r["ok"] = true;
+                r["skipped"] = true;
+                vh::emit(r);
+                continue;
+            }
+        }
         {
             std::string head = r.dump();
             head.pop_back();     // strip '}'
